@@ -296,6 +296,10 @@ def build_tool():
     """Build the real diplomat-tool binary from REPO's working tree into work/rtarget."""
     if "tool" in _built:
         return _built["tool"]
+    if os.environ.get("VERIF_TOOL_BIN"):
+        # development aid (coverage-instrumented binary); the registered commands never set it
+        _built["tool"] = os.environ["VERIF_TOOL_BIN"]
+        return _built["tool"]
     td = os.path.join(WORK, "rtarget")
     p = sh(["cargo", "build", "--offline", "--release", "-p", "diplomat-tool", "--bin", "diplomat-tool",
             "--manifest-path", os.path.join(REPO, "Cargo.toml"), "--target-dir", td],
